@@ -237,7 +237,7 @@ fn brute_force_webs(pg: &PG) -> HashSet<Row> {
 // numberings and builds
 // --------------------------------------------------------------------------------------
 
-const NUMBERINGS: [&str; 7] = ["boundaries-first", "boundaries-last", "interleaved", "random-permutation", "random-ids-with-gaps", "boundaries-first-spiders-shuffled", "some-ids-above-2^32"];
+const NUMBERINGS: [&str; 8] = ["boundaries-first", "boundaries-last", "interleaved", "random-permutation", "random-ids-with-gaps", "boundaries-first-spiders-shuffled", "some-ids-above-2^32", "random-permutation-built-with-detours"];
 
 /// ids[abstract vertex] = vertex id in the build
 fn numbering(which: usize, d: &WDesc, r: &mut Rng) -> Vec<V> {
@@ -273,7 +273,7 @@ fn numbering(which: usize, d: &WDesc, r: &mut Rng) -> Vec<V> {
                 ids[a] = id;
             }
         }
-        3 => {
+        3 | 7 => {
             let mut order: Vec<usize> = (0..n).collect();
             r.shuffle(&mut order);
             for (id, a) in order.into_iter().enumerate() {
@@ -316,6 +316,45 @@ fn numbering(which: usize, d: &WDesc, r: &mut Rng) -> Vec<V> {
         }
     }
     ids
+}
+
+/// `detours`: the same diagram reached by a longer history - extra spiders wired in and
+/// removed again (an older one before the newest, or the other way round), and an insertion
+/// under a name that is already taken (rejected, must change nothing).
+fn build_with(d: &WDesc, ids: &[V], detours: bool) -> Graph {
+    let mut g = build(d, ids);
+    if detours && d.ns() > 0 {
+        let (ins, outs) = (g.inputs().clone(), g.outputs().clone());
+        let some = ids[0];
+        let other = ids[d.ns() - 1];
+        let k = ids.iter().map(|&x| x as u64).sum::<u64>();
+        let a = g.add_vertex(VType::Z);
+        g.add_edge(a, some);
+        let b = g.add_vertex(VType::X);
+        g.add_edge(b, other);
+        g.add_edge(a, b);
+        let c = g.add_vertex(VType::Z);
+        g.add_edge(c, a);
+        // a name that is taken by a spider with edges
+        let _ = g.add_named_vertex_with_data(some, VData { ty: VType::X, ..Default::default() });
+        let order: [V; 3] = match k % 3 {
+            0 => [a, c, b],
+            1 => [c, b, a],
+            _ => [b, a, c],
+        };
+        for v in order {
+            g.remove_vertex(v);
+        }
+        if k % 2 == 0 {
+            // and once more: the id counter after the removals is whatever the backend made of it
+            let e = g.add_vertex(VType::Z);
+            g.add_edge(e, other);
+            g.remove_vertex(e);
+        }
+        g.set_inputs(ins);
+        g.set_outputs(outs);
+    }
+    g
 }
 
 fn build(d: &WDesc, ids: &[V]) -> Graph {
@@ -461,7 +500,9 @@ fn run_one(family: &'static str, index: u64, d: &WDesc, cz: &Canon, dim: usize, 
     let cond = cond_numbering(d, ids);
     let cond_iso = cond_isolated(d);
     c.count(&format!("run:{name}"), 1);
-    let mut g = build(d, ids);
+    // detours on the permuted numbering, and on every other case of the numbering with gaps
+    // (where the number of vertices is itself an id that may be in use)
+    let mut g = build_with(d, ids, which == 7 || (which == 4 && index % 2 == 1));
     let before = graph_dump(&g);
     let (ins0, outs0) = (g.inputs().clone(), g.outputs().clone());
     let detail = |what: &str, extra: Value| {
@@ -868,7 +909,7 @@ pub fn run() {
         return;
     }
     c.set_rule(
-        "cases = diagrams (Z/X spiders, phases 0/pi, plain edges, 0-4 boundaries on spiders), each run under 7 vertex numberings (evaluations counts diagram x numbering executions); non-trivial when the diagram has >= 2 spiders and a web space of dimension >= 1; distinct = distinct diagram descriptions (64-bit hash)",
+        "cases = diagrams (Z/X spiders, phases 0/pi, plain edges, 0-4 boundaries on spiders), each run under 8 vertex numberings / construction histories (evaluations counts diagram x numbering executions); non-trivial when the diagram has >= 2 spiders and a web space of dimension >= 1; distinct = distinct diagram descriptions (64-bit hash)",
     );
     c.assume("own-colour Pauli of a Z spider is Pauli X (drawn green, generated by firing it), of an X spider Pauli Z; Y counts as both");
     c.assume("web space = solution space of the edge-based F2 system on the subdivided (bipartite) diagram; cross-checked against the same system on the original diagram and, up to 12 spiders, against brute-force enumeration of firing sets");
